@@ -25,20 +25,20 @@ R = [
  (r'block_token\.CodeFence\.__init__', r'open_info\[\d\]', 'PROTOCOL', 'open_info is the 4-tuple (len(prepend), leader, info_string, lang) assigned by CodeFence.start on its only truthy path (C05 R-SCRATCH)'),
  (r'block_token\.CodeFence\.read', r'_open_info\[\d\]', 'PROTOCOL', 'cls._open_info is the 4-tuple assigned by CodeFence.start before read is dispatched (C05 R-SCRATCH def-before-use)'),
  (r'block_token\.CodeFence\.start', r'unpack:', 'RX-GROUPS', 'CodeFence.pattern has exactly four groups and match_obj is not None here (early return above)'),
- (r'block_token\.CodeFence\.start', r'leader\[0\]', 'RX-NONNULL', 'leader is group 2 of CodeFence.pattern (`{3,}|~{3,}): at least three characters'),
+ (r'block_token\.CodeFence\.start', r'leader\[0\]', 'RX-NONNULL', 'leader is group 2 of CodeFence.pattern (`{3,}|~{3,}): at least three characters', {'rx': 'block_token.CodeFence.pattern', 'group': 2, 'min_width': 1}),
  (r'block_token\.List\.__init__', r'children\[0\]', 'PROTOCOL', 'List.read always returns at least one match: the first ListItem.read result is appended before any break can be reached'),
- (r'block_token\.List\.__init__', r'int\(\)', 'RX-NONNULL', 'leader has more than one character here, i.e. it is an ordered marker: 1-9 digits followed by . or ) (ListItem.pattern group 2), so leader[:-1] is a digit string'),
- (r'block_token\.List\.check_interrupts_paragraph', r'leader\[0\]', 'RX-NONNULL', 'leader is group 2 of ListItem.pattern, which cannot be empty'),
+ (r'block_token\.List\.__init__', r'int\(\)', 'RX-NONNULL', 'leader has more than one character here, i.e. it is an ordered marker: 1-9 digits followed by . or ) (ListItem.pattern group 2), so leader[:-1] is a digit string', {'rx': 'block_token.ListItem.pattern', 'group': 2, 'min_width': 1, 'group_language_within': '[0-9]+[.)]|[^0-9]'}),
+ (r'block_token\.List\.check_interrupts_paragraph', r'leader\[0\]', 'RX-NONNULL', 'leader is group 2 of ListItem.pattern, which cannot be empty', {'rx': 'block_token.ListItem.pattern', 'group': 2, 'min_width': 1}),
  (r'block_token\.List\.read', r'unpack:ListItem\.read', 'PROTOCOL', 'ListItem.read returns a pair on both of its return paths'),
  (r'block_token\.List\.read', r'output\[3\]', 'PROTOCOL', 'ListItem.read returns a 5-tuple (parse_buffer, indentation, prepend, leader, line_number) as first component'),
  (r'block_token\.List\.read', r'matches\[-1\]\[0\]', 'PROTOCOL', 'guarded by `if matches`; each match is the 5-tuple from ListItem.read'),
  (r'block_token\.List\.read', r'while True', 'LOOP', 'every iteration calls ListItem.read, whose first statement consumes a line with next(lines); the loop ends when next_marker is None or the marker type changes'),
- (r'block_token\.List\.same_marker_type', r'\[-1\]', 'RX-NONNULL', 'both arguments are leaders (ListItem.pattern group 2, non-empty)'),
+ (r'block_token\.List\.same_marker_type', r'\[-1\]', 'RX-NONNULL', 'both arguments are leaders (ListItem.pattern group 2, non-empty)', {'rx': 'block_token.ListItem.pattern', 'group': 2, 'min_width': 1}),
  (r'block_token\.ListItem\.read', r'unpack:', 'R-SIBLING-RX', 'parse_marker(line) is None only if ListItem.pattern does not match; List.start matched List.pattern on this line and L_match(List.pattern) is included in L_match(ListItem.pattern) (R-SIBLING-RX); later items come with prev_marker from a successful parse_marker'),
  (r'block_token\.ListItem\.read', r'next:next', 'PEEK', 'next_line (= lines.peek()) is not None on this path: the loop breaks at its top when next_line is None'),
  (r'block_token\.Table\.__init__', r'unpack:', 'PROTOCOL', 'argument is the pair (line_buffer, start_line) returned by Table.read'),
  (r'block_token\.Table\.__init__', r'lines\[[01]\]', 'PROTOCOL', 'Table.read returns non-None only if len(line_buffer) >= 2 (guard in read)'),
- (r'block_token\.Table\.parse_align', r'\$p0\[(0|-1)\]', 'RX-NONNULL', 'column is an element of column_align_pattern.findall(...): the pattern `:?-+:?` cannot match the empty string'),
+ (r'block_token\.Table\.parse_align', r'\$p0\[(0|-1)\]', 'RX-NONNULL', 'column is an element of column_align_pattern.findall(...): the pattern `:?-+:?` cannot match the empty string', {'rx': 'block_token.Table.column_align_pattern', 'group': 0, 'min_width': 1}),
  (r'block_token\.Footnote\.read', r'while offset', 'LOOP', 'match_reference returns an offset strictly greater than its argument (it has consumed at least "[x]:" and a line end) or None, which breaks the loop'),
  (r'block_token\.Footnote\.match_reference', r'shift_whitespace\(\$p1, label_end \+ 1\)', 'BOUNDED', 'dest_start == len(string) returns above; shift_whitespace returns an index <= len(string)'),
  (r'block_token\.Footnote\.match_reference', r'string\[title_start\]|shift_whitespace\(\$p1, dest_end\)', 'BOUNDED', 'evaluated only when title_start < title_end <= len(string)'),
@@ -82,14 +82,17 @@ def main():
         kind = site.split(':', 1)[0]
         orig = '%s:%s' % (kind, text.get(k, '')) if not site.startswith('while') else text.get(k, site)
         hit = None
-        for fre, sre, backing, reason in R:
+        for fre, sre, backing, reason, *extra in R:
             if re.search(fre, fn) and (re.search(sre, site) or re.search(sre, orig) or re.search(sre.replace(r'\$p', r'\w+\b|\$p'), orig)):
-                hit = (backing, reason)
+                hit = (backing, reason, extra[0] if extra else None)
                 break
         if hit is None:
             missing.append(k)
             continue
-        entries.append({'key': k, 'site': text.get(k, ''), 'backing': hit[0], 'reason': hit[1]})
+        e = {'key': k, 'site': text.get(k, ''), 'backing': hit[0], 'reason': hit[1]}
+        if hit[2]:
+            e['check'] = hit[2]
+        entries.append(e)
     json.dump({'entries': entries}, open(path, 'w'), indent=1)
     print('audited', len(entries), 'missing', len(missing))
     for k in missing:
